@@ -15,7 +15,10 @@ echo "|---|---|---|---|---|---|"
 for d in /verif/seeded/*/; do
   n=$(basename $d)
   [ -f "$d/patch.diff" ] || continue
-  line=$(/verif/tools/seed_detect.sh $n quick 2>&1 | tail -1)
+  # seeded/<name>/checks names the check(s) that own the violated behaviour when that is not the property the
+  # sub-agent was asked about (e.g. a stale-cache history delivered for C02 is a C14 violation)
+  extra=""; [ -f "$d/checks" ] && extra=$(cat "$d/checks")
+  line=$(/verif/tools/seed_detect.sh $n quick $extra 2>&1 | tail -1)
   rc=$(echo "$line" | sed -n 's/.* rc=\([0-9]*\).*/\1/p'); wall=$(echo "$line" | sed -n 's/.* wall=\([0-9]*s\).*/\1/p'); chk=$(echo "$line" | sed -n 's/.* check=\([A-Z0-9]*\).*/\1/p')
   sig=$(echo "$line" | sed 's/.*wall=[0-9]*s//' | sed 's/signature=//g' | sed 's/|/\//g' | cut -c1-150)
   echo "| $n | $chk | quick | ${rc:-apply-failed} | $wall | $sig |" >> $OUT
